@@ -71,7 +71,14 @@ def make_msg(data, as_file=False):
     msg.sop_class_uid = SOP
     msg.message_id_being_responded_to = 3
     msg.status = 0xFF00
-    msg.data_set = io.BytesIO(data) if (as_file and data) else data
+    if as_file and data:
+        if len(data) % 2:
+            msg.data_set = io.BytesIO(b'\x5A' * 192 + data)      # positioned behind a header of its own
+            msg.data_set.seek(192)
+        else:
+            msg.data_set = io.BytesIO(data)
+    else:
+        msg.data_set = data
     return msg
 
 
@@ -188,6 +195,40 @@ def run_requestor_case(L, P, lengths, entity='ClientAE'):
         raise Violation('C10:exception:%s' % lib_frame(exc), 'requestor (max %d, peer %d) raised %r' % (L, P, exc), case)
 
 
+def run_same_object_two_associations(ctx):
+    """One message object (a keep-alive echo, a canned response) is sent on an association with one limit and then
+    on another association with another limit: every send is fragmented for the association it goes out on."""
+    from pynetdicom2 import dimsemessages
+    for first, second in ((0, 64), (16384, 64), (64, 0), (128, 70), (0, 7), (65536, 1030)):
+        for with_data in (False, True):
+            case = {'role': 'same-object', 'limits': [first, second], 'with_data': with_data}
+            msg = dimsemessages.CFindRSPMessage()
+            msg.sop_class_uid = SOP
+            msg.message_id_being_responded_to = 3
+            msg.status = 0xFF00
+            data = dg.patterned(300, 5) if with_data else None
+            ctx.case(('same-object', first, second, with_data), True, labels=['same-object-two-associations'], sample=case)
+            try:
+                for limit in (first, second, first):
+                    msg.data_set = data
+                    assoc = dg.make_assoc(limit)
+                    assoc.send(msg, 1)
+                    pdus = assoc.dul.sent[0]
+                    lengths = [len(p.encode()) - 6 for p in pdus]
+                    if limit and max(lengths) > limit:
+                        raise Violation('C10:too-long:same-object', 'a message object sent before on an association with limit %d '
+                                        'went out in P-DATA-TF PDUs of up to %d bytes on one with limit %d'
+                                        % (first if limit == second else second, max(lengths), limit), case)
+                    frags = dg.split_fragments(pdus)
+                    got = b''.join(p_ for _, h, p_ in frags if h is not None and not h & 1)
+                    if got != (data or b''):
+                        raise Violation('C10:data-lost:same-object', '%d of %d data bytes sent' % (len(got), len(data or b'')), case)
+            except Violation as v:
+                ctx.fail(v.key, v.what, v.case)
+            except Exception as exc:
+                ctx.fail('C10:exception:%s' % lib_frame(exc), 'sending one object on two associations raised %r' % (exc,), case)
+
+
 def run_provider_read_sizes(ctx):
     """'Remain able to send/receive' also concerns the provider underneath: a provider created with the locally
     configured maximum (incl. 0 = no limit and the smallest values) must carry a conversation exactly like one
@@ -276,12 +317,20 @@ def run(ctx):
                 ctx.fail(v.key, v.what, v.case)
             ctx.case((role, L, P, 'big'), True, labels=['limits-above-1MiB', 'role=' + role],
                      sample={'role': role, 'own_max': L, 'peer_announced': P, 'data_len': lengths[0]})
+    run_same_object_two_associations(ctx)
     run_provider_read_sizes(ctx)
     run_random(ctx, 8000 if ctx.thorough else 500)
 
 
 def replay(case):
     warnings.simplefilter('ignore')
+    if case['role'] == 'same-object':
+        from ..common import Ctx
+        sub = Ctx('C10', 'quick', 1)
+        run_same_object_two_associations(sub)
+        for key, ent in sorted(sub.failures.items()):
+            raise Violation(key, ent['what'], ent['case'])
+        return
     if case['role'] == 'provider':
         from ..common import Ctx
         sub = Ctx('C10', 'quick', 1)
